@@ -17,12 +17,12 @@ use std::collections::BTreeMap;
 use std::fmt::Write as _;
 
 #[derive(Debug, Clone)]
-struct OpInfo { name: String, fields: Vec<(String, String)>, visit: String }
+pub(crate) struct OpInfo { pub(crate) name: String, pub(crate) fields: Vec<(String, String)>, pub(crate) visit: String }
 
 // The macro body is a sequence of `Name => visit_name (annotation)` / `Name { f: T, .. } => visit_name (annotation)`
 // entries inside `@group { .. }` blocks; entries may span several lines (BrOnCast), so the text is scanned
 // entry by entry, not line by line.
-fn parse_optable(src: &str) -> Vec<OpInfo> {
+pub(crate) fn parse_optable(src: &str) -> Vec<OpInfo> {
     let start = src.find("macro_rules! _for_each_operator_group").unwrap_or_else(|| crate::shape_changed!("wasmparser: _for_each_operator_group not found"));
     let end = src[start..].find("macro_rules! _for_each_operator_delegate").map(|e| start + e).unwrap_or(src.len());
     // drop `//` comments, collapse whitespace
